@@ -574,7 +574,7 @@ def check_encoder_reads(ctx, label, root, enum_adt, rule='encoder-reads-every-fi
             continue
         for k, fl in enumerate(v['fields']):
             inst = '%s::%s.%d' % (enum_adt.rsplit('::', 1)[-1], v['name'], k)
-            if k in got or any(p in fl[1] for p, _ in SRC_EXEMPT_TYPES):
+            if k in got or any(p in fl[1] for p, _ in SRC_EXEMPT_TYPES) or (inst.split('::', 1)[-1].rsplit('.', 1)[0], str(k)) in exempt:
                 continue
             ctx.fail(rule, inst, ctx.loc(facts.fn(root)), 'the encoder reads field(s) %s of %s::%s but never field %d (%s): it cannot be on the wire' % (
                 sorted(got), enum_adt.rsplit('::', 1)[-1], v['name'], k, fl[1][-60:]), key='%s|%s' % (rule, inst))
